@@ -49,6 +49,7 @@ def run_mutations(pid, tier, seed, exe, wd):
     aux_plain = [s for s in stmts if s["t"]["auxd"] and s["t"]["lag"] == 0]
     chosen = small[:1] + aux_lag[:1 if tier == "quick" else 4] + aux_plain[:1 if tier == "quick" else 4] + chosen
     scs = [starkgen.scenario(rec, i, seed) for i, rec in enumerate(chosen)]
+    scs = [sc for sc in scs if not starkgen.low_degree(sc)]
     msets, st, tr = mutation_sets({wire_key(sc) for sc in scs}, wd)
     obs = []
     nbit = 2 if tier == "quick" else 8
